@@ -21,7 +21,7 @@ import tempfile
 from .. import env, simdev, tlc, transports, wire
 from ..framework import main
 
-FAILS = ['transport', 'silent', 'nokeys', 'badauth', 'checksum', 'cancel', 'cancel_read']
+FAILS = ['transport', 'silent', 'nokeys', 'badauth', 'checksum', 'cancel', 'cancel_read', 'badkeys']
 
 
 class Interrupt(BaseException):
@@ -61,7 +61,7 @@ class Obj(object):
                 p = outer.plan
                 if p == 'silent':
                     return []
-                if p == 'nokeys':
+                if p in ('nokeys', 'badkeys'):
                     return [wire.frame('AUTH', 1, 0, b'\x01' * 20)]
                 if p == 'badauth':
                     return [wire.frame('AUTH', 1, 0, b'\x01' * 20)]
@@ -110,6 +110,15 @@ class Obj(object):
         self.close_fails = False
         self.gen = None
         self.nfile = 0
+        # what `available` says while a connect() attempt is running, sampled at every transport call of the attempt
+        self.in_connect, self.during = False, []
+        orig_call = core._call
+
+        def _call(kind, detail=None):
+            if outer.in_connect:
+                outer.during.append(bool(outer.sess.device.available))
+            return orig_call(kind, detail)
+        core._call = _call
 
     def signer(self):
         class S(object):
@@ -129,7 +138,16 @@ class Obj(object):
             kw = dict(read_timeout_s=1.0, transport_timeout_s=1.0, auth_timeout_s=1.0)
             if letter[1] == 'badauth':
                 kw['rsa_keys'] = [self.signer(), self.signer()]
-            o = s.call('connect', **kw)
+            if letter[1] == 'badkeys':
+                def lazy_keys():
+                    raise FileNotFoundError('adbkey: no such file (keys loaded lazily)')
+                    yield None  # noqa
+                kw['rsa_keys'] = lazy_keys()         # any iterable of signers; this one fails when it is iterated
+            self.in_connect, self.during = True, []
+            try:
+                o = s.call('connect', **kw)
+            finally:
+                self.in_connect = False
         elif letter[0] == 'close':
             self.close_fails = len(letter) > 1
             o = s.call('close')
@@ -159,7 +177,7 @@ class Obj(object):
             else:
                 o = s.call('push', io.BytesIO(b'abc'), path)
         out = 'ok' if o.kind == 'ret' else ('stop' if o.exc_name in ('StopIteration', 'StopAsyncIteration') else o.exc_name)
-        return dict(out=out, wrote=self.nwrites() > w0, avail=bool(s.device.available),
+        return dict(out=out, wrote=self.nwrites() > w0, avail=bool(s.device.available), during=(letter[0] == 'connect' and any(self.during)),
                     files_created=sorted(set(os.listdir(self.tmp)) - set(files0)), ret=(o.value if o.kind == 'ret' else None))
 
 
@@ -205,6 +223,9 @@ def check_step(g, states, letter, obs):
     alts = [(op, to) for st in sorted(states) for op, to in g[st] if letter_of(op) == letter]
     if not alts:
         return None, None
+    if obs.get('during'):
+        # available is True exactly from a successful connect() until the next close() or connect() *attempt*: while the attempt runs it is False
+        return 'C13.AvailableExactly', set(t for _, t in alts)
     nxt = set()
     for op, to in alts:
         out_ok = (op['out'] == obs['out']) or (op['out'] == 'raises' and obs['out'] not in ('ok', 'stop'))
@@ -238,10 +259,10 @@ def enabled_prefix(g, seq):
     return len(seq)
 
 
-def walk(ctx, g, mode, alphabet, length, tmp, label, prefix=()):
-    n = 0
-    for seq in itertools.product(alphabet, repeat=length):
-        seq = tuple(prefix) + seq
+def _walk_seqs(g, mode, seqs, tmp, label):
+    """Run the letter sequences; returns (steps, violations [(clause, replay)], covered model edge labels)."""
+    n, viol = 0, []
+    for seq in seqs:
         if enabled_prefix(g, seq) < len(seq):
             continue
         o = Obj(mode, tmp)
@@ -255,14 +276,44 @@ def walk(ctx, g, mode, alphabet, length, tmp, label, prefix=()):
                 clause, state = check_step(g, state, letter, obs)
                 if clause:
                     obs.pop('ret', None)
-                    ctx.violation(clause, dict(kind='sequence', mode=mode, letters=[list(x) for x in seq[:i + 1]], observed=obs, label=label))
-                    if len(ctx.violations) >= 3:
-                        return n
+                    viol.append((clause, dict(kind='sequence', mode=mode, letters=[list(x) for x in seq[:i + 1]], observed=obs, label=label)))
                     break
         finally:
             o.sess.close_loop()
             for f in os.listdir(tmp):
                 os.remove(os.path.join(tmp, f))
+        if len(viol) >= 3:
+            break
+    return n, viol, set(COVERED)
+
+
+_JOB = {}
+
+
+def _walk_worker(k):
+    g, mode, seqs, tmp, label, nproc = _JOB['args']
+    sub = os.path.join(tmp, 'w%d' % k)
+    os.makedirs(sub, exist_ok=True)
+    return _walk_seqs(g, mode, seqs[k::nproc], sub, label)
+
+
+def walk(ctx, g, mode, alphabet, length, tmp, label, prefix=(), nproc=12):
+    seqs = [tuple(prefix) + s_ for s_ in itertools.product(alphabet, repeat=length)]
+    if len(seqs) < 400:
+        res = [_walk_seqs(g, mode, seqs, tmp, label)]
+    else:
+        # the sequences are independent of each other (a fresh object per sequence): dealt to forked workers
+        import multiprocessing as mp
+        _JOB['args'] = (g, mode, seqs, tmp, label, nproc)
+        with mp.get_context('fork').Pool(nproc) as pool:
+            res = pool.map(_walk_worker, range(nproc))
+    n = 0
+    for (k, viol, cov) in res:
+        n += k
+        COVERED.update(cov)
+        for clause, rep in viol:
+            if len(ctx.violations) < 3:
+                ctx.violation(clause, rep)
     return n
 
 
